@@ -138,9 +138,18 @@ def opt_inds_coq(ds):
     return '(@None (list ind))' if ds is None else '(Some %s)' % inds_coq(ds)
 
 
+class TrackedIndividual(Individual):
+    """a user subclass of Individual (adds a helper, overrides nothing): mixed with base
+    Individuals carrying the same uid it must still be recognised as the same individual"""
+
+    def label(self):
+        return 'tracked:%s' % self.uid
+
+
 class Pool:
-    """python Individual objects for descriptions; a repeated description may be the same object
-    or a second object with the same uid and fitness (flag in the description: d[2])."""
+    """python Individual objects for descriptions; a repeated description may be the same object,
+    a second object with the same uid and fitness (flag d[2] = 1) or an instance of a user
+    subclass of Individual with that uid and fitness (flag d[2] = 2)."""
 
     def __init__(self):
         self.objs = {}
@@ -149,7 +158,8 @@ class Pool:
     def get(self, d):
         key = (d[0], tuple(d[1]), d[2] if len(d) > 2 else 0)
         if key not in self.objs:
-            o = Individual(GRAPH, fitness=build_fit(d[1]), uid='u%d' % d[0])
+            cls = TrackedIndividual if key[2] == 2 else Individual
+            o = cls(GRAPH, fitness=build_fit(d[1]), uid='u%d' % d[0])
             self.objs[key] = o
             self.by_id[id(o)] = [d[0], list(d[1])]
         return self.objs[key]
@@ -202,6 +212,19 @@ def rand_population(r, pool, n, repeat_p):
             d = fresh.pop()
             out.append([d[0], d[1], 0])
     return out
+
+
+def mix_classes(r, *populations, p_case=0.25):
+    """with probability p_case turn about half of the entries into instances of the user subclass
+    (independently per entry, so one uid can be a base Individual in one set and a subclass
+    instance in another, or both inside one population)"""
+    if r.random() >= p_case:
+        return False
+    for pop in populations:
+        for d in pop:
+            if r.random() < 0.5:
+                d[2] = 2
+    return True
 
 
 def seed_impl(s):
@@ -263,6 +286,7 @@ def gen_selection_cases(ctx):
         default = r.randint(1, 15)
         if r.random() < 0.05:
             ps = 0          # pop_size=None: taken from the parameters
+        mix_classes(r, pop)
         cases.append({'op': 'sel', 't': t, 'multi': multi, 'default': default, 'ps': ps, 'pop': pop,
                       'seed': r.randrange(10 ** 6), 'ex': False})
     # populations of 21..120 individuals (group size ceil(0.1 n) >= 3), requests from 1 to n, biased to n
@@ -402,6 +426,7 @@ def gen_elitism_cases(ctx):
             best = sort_archive(best)
         pop_size = r.choice([5, 5, 10, len(new), 3])
         min_pop = r.choice([5, 5, 5, 1, 8])
+        mix_classes(r, best, new)
         cases.append({'op': 'eli', 'et': et, 'multi': multi, 'pop_size': pop_size, 'min_pop': min_pop,
                       'best': best, 'new': new, 'seed': r.randrange(10 ** 6), 'ex': False})
     return cases
@@ -502,6 +527,7 @@ def gen_inheritance_cases(ctx):
         extra = rand_pool(r, r.randint(0, 10), multi, uid0=100)
         cand = (pool + extra) if r.random() < 0.7 else (extra or pool)
         prev = rand_population(r, cand, r.randint(1, 15), rp)
+        mix_classes(r, prev, new)
         case = {'op': 'inh', 'sc': sc, 't': t, 'multi': multi,
                 'pop_size': r.randint(1, 15) if r.random() < 0.9 else r.randint(16, 30),
                 'prev': prev, 'new': new, 'seed': r.randrange(10 ** 6)}
@@ -825,6 +851,7 @@ def gen_sessions(ctx):
             else:
                 call = {'kind': 'inh', 'new': rand_population(r, pool, r.randint(1, 12), rp),
                         'prev': rand_population(r, pool + extra, r.randint(1, 12), rp)}
+            mix_classes(r, *[call[k] for k in ('best', 'new', 'prev', 'pop') if k in call])
             step = {'set': change, 'update': r.random() < 0.5, 'call': call}
             if diverging:
                 step['on'] = r.choice(['sel', 'inh', 'eli'])
@@ -1069,7 +1096,9 @@ def run(ctx):
                 'spea2} x {steady_state, generational, parameter_free} x {keep_n_best, replace_worst, none} x single / '
                 'multi objective; an exhaustive small scope (all sequences of length <= 4 over 3 individuals) for '
                 'selection and elitism; reproduction: sequences of 1..3 reproduce() calls with a scripted evaluator that '
-                'drops individuals; LARGE populations of 21..120 individuals (tournament group size >= 3) with requests from 1 to n; '
+                'drops individuals; MIXED classes: in a quarter of the cases about half of the entries are instances of a user '
+                'subclass of Individual, so the same uid occurs as a base Individual and as a subclass instance within or '
+                'across populations / archives; LARGE populations of 21..120 individuals (tournament group size >= 3) with requests from 1 to n; '
                 'DIVERGING parameters: an Inheritance whose Selection was built from another GPAlgorithmParameters object, and '
                 'sessions in which a new parameters object is handed to some operators only (each operator is judged for its '
                 'own current object); RUNS: real EvoGraphOptimizer.optimise() runs (3-4 generations, steady_state / parameter_free / '
